@@ -552,7 +552,8 @@ class AsciiRecordWriter(IORecord):
 
     def rwString(self, val, length):
         self.numBytes += length * self._characterSize
-        self.data.append(" {value:<{length}}".format(length=length, value=val))
+        # pad AND cut to the field width, as the binary writer does: the reader consumes `length`
+        self.data.append(" {value:<{length}.{length}}".format(length=length, value=val))
         return val
 
 
